@@ -585,10 +585,16 @@ def validate_selected_audioTrackUID(audioTrackUID):
 def possible_audioTrackUID_errors(audioTrackUID):
     audioPackFormat = audioTrackUID.audioPackFormat
 
-    track_channel = (audioTrackUID
-                     .audioTrackFormat
-                     .audioStreamFormat
-                     .audioChannelFormat)
+    if audioTrackUID.audioTrackFormat is not None:
+        track_channel = (audioTrackUID
+                         .audioTrackFormat
+                         .audioStreamFormat
+                         .audioChannelFormat)
+        via = " via audioTrackFormat and audioStreamFormat"
+    else:
+        # BS.2076-2 style direct reference
+        track_channel = audioTrackUID.audioChannelFormat
+        via = ""
 
     possible_packs = [audioPackFormat] + audioPackFormat.encodePackFormats
     if audioPackFormat.inputPackFormat is not None:
@@ -599,10 +605,11 @@ def possible_audioTrackUID_errors(audioTrackUID):
                for pack_channel in pack_format_channels(possible_pack)):
         yield ("audioPackFormat {apf.id} does not reference "
                "audioChannelFormat {acf.id} which is referenced "
-               "by audioTrackUID {atu.id} via audioTrackFormat and audioStreamFormat".format(
+               "by audioTrackUID {atu.id}{via}".format(
                    apf=audioPackFormat,
                    acf=track_channel,
                    atu=audioTrackUID,
+                   via=via,
                ))
 
 
